@@ -44,6 +44,8 @@ type c18Replay struct {
 	Request apix.Request `json:"request"`
 	Choices []int        `json:"maporder_choices,omitempty"`
 	Oracle  string       `json:"oracle"`
+	// Then: a second request served after Request on the same servers (oracle "history")
+	Then *apix.Request `json:"then,omitempty"`
 	// document variant (x-read-only mark of one operation changed)
 	IsVariant   bool   `json:"is_variant,omitempty"`
 	VarTemplate string `json:"var_template,omitempty"`
@@ -57,6 +59,45 @@ type c18World struct {
 	ops       []apix.Op
 	opOf      map[string]apix.Op // "METHOD template" -> op
 	off, on   *apix.Env
+	// base: the canonical request of every operation and how the freshly built
+	// servers answered it (recorded by sanity, before any other request)
+	base map[string]c18Base
+}
+
+type c18Base struct {
+	Req     apix.Request
+	Off, On apix.Obs
+}
+
+// history re-serves, on the servers that have just served r, the canonical
+// request of every operation of the template r was generated from and compares
+// the decision with the one the fresh servers took: the decision for a method
+// and path must not depend on what was asked before. State-changing operations
+// are only re-served with write operations disabled (where they are refused).
+func (w *c18World) history(r apix.Request, template string) (sig, msg string, then apix.Request) {
+	for _, op := range w.ops {
+		if op.Template != template {
+			continue
+		}
+		b, ok := w.base[op.OperationID]
+		if !ok {
+			continue
+		}
+		off := w.off.DoTraced(b.Req)
+		if off.Reached != b.Off.Reached || off.Status != b.Off.Status {
+			return "C18/decision-depends-on-earlier-requests/" + op.OperationID,
+				fmt.Sprintf("write operations disabled; fresh server: %s -> %d reached=%q\nafter serving %s the same request -> %d reached=%q %q", b.Req, b.Off.Status, b.Off.Reached, r, off.Status, off.Reached, off.Body), b.Req
+		}
+		if !op.ReadOnly {
+			continue
+		}
+		on := w.on.DoTraced(b.Req)
+		if on.Reached != b.On.Reached || on.Status != b.On.Status {
+			return "C18/decision-depends-on-earlier-requests/" + op.OperationID,
+				fmt.Sprintf("write operations enabled; fresh server: %s -> %d reached=%q\nafter serving %s the same request -> %d reached=%q %q", b.Req, b.On.Status, b.On.Reached, r, on.Status, on.Reached, on.Body), b.Req
+		}
+	}
+	return "", "", apix.Request{}
 }
 
 func newC18World() *c18World {
@@ -318,6 +359,12 @@ func (w *c18World) sanity(c *report.Ctx) {
 		r := apix.Request{Method: op.Method, Target: apix.Prefix + apix.Canonical(w.spec, op.Template), Body: body, CType: ctype}
 		on := w.on.DoTraced(r)
 		off := w.off.DoTraced(r)
+		if w.base == nil {
+			w.base = map[string]c18Base{}
+		}
+		if _, seen := w.base[op.OperationID]; !seen {
+			w.base[op.OperationID] = c18Base{Req: r, Off: off, On: on}
+		}
 		if sig, msg := w.judge(r, off, on); sig != "" {
 			c.Violation(sig, "[canonical request of "+op.OperationID+"]\n"+msg, c18Replay{Request: r, Oracle: "judge"})
 			continue
@@ -350,7 +397,7 @@ func (w *c18World) sanity(c *report.Ctx) {
 func c18() *report.Check {
 	return &report.Check{
 		Level: "exploration",
-		Rule: "every request of the generated space (7 methods x paths from every OpenAPI template by parameter substitution and spelling mutation x 3 bodies, built by net/http's request parser; plus URL objects with RawPath != Path) served by the real router with writes off and on, twice each, and under every iteration order of every kproapi map range met; " +
+		Rule: "every request of the generated space (7 methods x paths from every OpenAPI template by parameter substitution and spelling mutation x 3 bodies, built by net/http's request parser; plus URL objects with RawPath != Path) served by the real router with writes off and on, twice each, and under every iteration order of every kproapi map range met; after each request the canonical requests of its template are served again on the same servers (two-request histories) and the decision compared with the fresh servers' one; " +
 			"oracles: writes off => no receive on trigger/shutdown channel, no DB change, no handler of an operation not marked x-read-only reached; read-only operations answer identically in both modes; same verdict under every map order and on repetition; classes = status + who answered + effects, per mode",
 		Assumptions: []string{
 			"the request reaches the router as net/http's ReadRequest parses it (the server's own parser); request lines it refuses never reach the router and are counted as a class",
@@ -379,7 +426,7 @@ func c18() *report.Check {
 				c.Stats.SetExtra("operations_of_the_document", ops)
 			}
 			unit := 0
-			var nReq, nMapRuns, nWithMap int64
+			var nReq, nMapRuns, nWithMap, nHist int64
 			maxPerm := 0
 			capped := false
 			w.requests(c.Thorough, func(r apix.Request, p apix.Path, bodyName string) {
@@ -406,7 +453,13 @@ func c18() *report.Check {
 				}
 				c.Stats.Class("writes off: " + w.outcome(r, off))
 				c.Stats.Class("writes on:  " + w.outcome(r, on))
-				if maporder.Ranges == before {
+				rangesNow := maporder.Ranges
+				if sig, msg, then := w.history(r, p.Template); sig != "" {
+					c.Violation(sig, fmt.Sprintf("[%s; %s; body %s]\n%s", p.Template, p.How, bodyName, msg), c18Replay{Request: r, Then: &then, Oracle: "history"})
+					c.Stats.Class("VIOLATION " + sig)
+				}
+				nHist++
+				if rangesNow == before {
 					return
 				}
 				// every map iteration order, per mode: one serving per execution
@@ -507,6 +560,7 @@ func c18() *report.Check {
 			}
 			c.Stats.Count("document_variant_requests", nVar)
 			c.Stats.Count("requests", nReq)
+			c.Stats.Count("two_request_histories_request_then_canonical_requests_of_its_template", nHist)
 			c.Stats.Count("requests_meeting_a_multi_key_map_range", nWithMap)
 			c.Stats.Count("map_order_executions", nMapRuns)
 			c.Stats.SetExtra("max_map_orders_for_one_request", maxPerm)
@@ -529,6 +583,17 @@ func c18() *report.Check {
 				return ""
 			}
 			maporder.Chooser = nil
+			if rp.Oracle == "history" {
+				cc := &report.Ctx{Property: c.Property, Stats: &report.Stats{}, NShards: 1}
+				w.sanity(cc)
+				w.serve(rp.Request)
+				for _, t := range w.templates {
+					if sig, msg, _ := w.history(rp.Request, t); sig != "" {
+						return sig + "\n" + msg
+					}
+				}
+				return ""
+			}
 			off0, on0, nd := w.serve(rp.Request)
 			if nd != "" {
 				return "verdict differs between repeated runs:\n" + nd
